@@ -713,64 +713,124 @@ func ruleRoutingPairs(r *Run) {
 	}
 	r.AtLeast(rule, "SetFromSchema calls in Merge", n, 1)
 	// NewGateway pairs schemas[i] with urls[i]: the introspector must hand back one schema per
-	// URL it was given, i.e. fan out over lo.Range(len(urls)) of the untouched parameter
+	// URL it was given, in the order it was given them
 	if irs := r.Anchor(rule, "introspection.(*ParallelRemoteSchemaIntrospector).IntrospectRemoteSchemas"); irs != nil {
-		call, _, _ := r.amrSite(irs)
-		ok := false
-		if call != nil && len(irs.Params) == 2 {
-			if rc, isCall := unwrap(call.Call.Args[0]).(*ssa.Call); isCall && strings.HasSuffix(calleeName(&rc.Call), "lo.Range") && len(rc.Call.Args) == 1 {
-				if lc, isLen := rc.Call.Args[0].(*ssa.Call); isLen {
-					if b, isB := lc.Call.Value.(*ssa.Builtin); isB && b.Name() == "len" && isUntouchedParam(irs, lc.Call.Args[0], irs.Params[1]) {
-						ok = true
-					}
-				}
-			}
-		}
+		call, mapF, _ := r.amrSite(irs)
 		site := r.P.pos(irs.Pos())
 		if call != nil {
 			site = r.P.pos(call.Pos())
 		}
-		r.Check(ok, rule, fnName(irs), "one schema per given URL", site,
-			"the fan-out runs over lo.Range(len(urls)) of the parameter as received (never reassigned, filtered or chunked)",
+		var fo *fanout
+		if call != nil && mapF != nil && len(irs.Params) == 2 {
+			fo = fanoutOver(irs, call, mapF, irs.Params[1])
+		}
+		r.Check(fo != nil, rule, fnName(irs), "one schema per given URL", site,
+			"the fan-out runs over every index of the URL list as received (lo.Range(len(urls)), or lo.Map(urls, …) that keeps URL and index together; the list is never reassigned, filtered or chunked)",
 			"the introspector no longer fans out over exactly the URL list it was given (the list is filtered, de-duplicated, re-sliced or the fan-out is split): NewGateway pairs schemas[i] with urls[i], so a shorter or re-ordered result records a service's fields under another service's URL")
+		if fo != nil {
+			// the URL that is introspected and the index that is carried belong together
+			fetches, carried := false, (*types.Var)(nil)
+			for _, ins := range allInstrs(mapF) {
+				switch x := ins.(type) {
+				case ssa.CallInstruction:
+					for _, a := range x.Common().Args {
+						if fo.isURL(unwrap(a)) {
+							fetches = true
+						}
+					}
+				case *ssa.Store:
+					if fa, ok := x.Addr.(*ssa.FieldAddr); ok && fo.isIndex(unwrap(x.Val)) {
+						carried = fieldOf(fa)
+					}
+				}
+			}
+			r.Check(fetches && carried != nil, rule, fnName(mapF), "URL i is introspected and index i is carried", r.P.pos(mapF.Pos()),
+				"the per-URL function introspects the URL of its own index and stores that index in its result",
+				"the per-URL function does not introspect the URL that belongs to the index it carries: after the sort, schema and URL of different services are paired")
+			if carried != nil {
+				r.checkIntrospectionOrder(rule, irs, call, carried)
+			}
+		}
 	}
 	ng := r.Anchor(rule, "pebbles.NewGateway")
 	if ng != nil {
-		// &MergeInput{Schema: schemas[i], URL: urls[i]} with one i
-		okPair := false
+		// &MergeInput{Schema: schemas[i], URL: given[i]} with one i, where `given` is the very list
+		// that was handed to the introspector
+		var given, schemas ssa.Value
 		for _, ins := range allInstrs(ng) {
-			al, ok := ins.(*ssa.Alloc)
-			if !ok || !strings.HasSuffix(namedOf(al.Type()), "merger.MergeInput") {
+			ci, ok := ins.(ssa.CallInstruction)
+			if !ok {
 				continue
 			}
-			var si, ui ssa.Value
-			for _, ref := range *al.Referrers() {
-				fa, ok := ref.(*ssa.FieldAddr)
-				if !ok || fieldOf(fa) == nil {
+			c := ci.Common()
+			isIntro := (c.IsInvoke() && c.Method.Name() == "IntrospectRemoteSchemas") || strings.HasSuffix(calleeName(c), ".IntrospectRemoteSchemas")
+			if !isIntro || len(c.Args) == 0 {
+				continue
+			}
+			given = sliceIdentity(c.Args[len(c.Args)-1])
+			if v, ok := ci.(ssa.Value); ok && v.Referrers() != nil {
+				for _, ref := range *v.Referrers() {
+					if ex, ok := ref.(*ssa.Extract); ok && ex.Index == 0 {
+						schemas = ex
+					}
+				}
+			}
+		}
+		okPair := false
+		why := "introspected schemas are not paired with their URLs by one common index"
+		if given == nil || schemas == nil {
+			why = "the call of the introspector (and the list of URLs it is given) was not found in NewGateway"
+		}
+		for _, f := range withClosures(ng) {
+			for _, ins := range allInstrs(f) {
+				al, ok := ins.(*ssa.Alloc)
+				if !ok || !strings.HasSuffix(namedOf(al.Type()), "merger.MergeInput") || given == nil || schemas == nil {
 					continue
 				}
-				for _, r2 := range *fa.Referrers() {
-					st, ok := r2.(*ssa.Store)
-					if !ok {
+				var si, ui, ubase ssa.Value
+				for _, ref := range *al.Referrers() {
+					fa, ok := ref.(*ssa.FieldAddr)
+					if !ok || fieldOf(fa) == nil {
 						continue
 					}
-					if ld, ok := st.Val.(*ssa.UnOp); ok && ld.Op == token.MUL {
-						if ia, ok := ld.X.(*ssa.IndexAddr); ok {
-							if fieldOf(fa).Name() == "Schema" {
-								si = ia.Index
-							} else if fieldOf(fa).Name() == "URL" {
-								ui = ia.Index
+					for _, r2 := range *fa.Referrers() {
+						st, ok := r2.(*ssa.Store)
+						if !ok {
+							continue
+						}
+						switch fieldOf(fa).Name() {
+						case "Schema":
+							if ld, ok := st.Val.(*ssa.UnOp); ok && ld.Op == token.MUL {
+								if ia, ok := ld.X.(*ssa.IndexAddr); ok && sliceIdentity(ia.X) == schemas {
+									si = ia.Index
+								}
+							}
+							// the element parameter of a lo.Map(schemas, func(s, i) …) callback
+							if len(f.Params) == 2 && st.Val == ssa.Value(f.Params[0]) {
+								if src := loMapSource(f); src != nil && sliceIdentity(src) == schemas {
+									si = f.Params[1]
+								}
+							}
+						case "URL":
+							if ld, ok := st.Val.(*ssa.UnOp); ok && ld.Op == token.MUL {
+								if ia, ok := ld.X.(*ssa.IndexAddr); ok {
+									ui, ubase = ia.Index, sliceIdentity(ia.X)
+								}
 							}
 						}
 					}
 				}
-			}
-			if si != nil && ui != nil && si == ui {
-				okPair = true
+				if si != nil && ui != nil && si == ui {
+					if ubase == given {
+						okPair = true
+					} else {
+						why = "schema i is paired with element i of a list that is not the list handed to the introspector (the introspector was given a copy, a sorted or a filtered list): schemas[i] is then not the schema of that URL, and every field of one service is routed to another"
+					}
+				}
 			}
 		}
 		r.Check(okPair, rule, fnName(ng), "MergeInput{schemas[i], urls[i]}", r.P.pos(ng.Pos()),
-			"schema i is paired with URL i under one index", "introspected schemas are not paired with their URLs by one common index")
+			"schema i is paired with element i of the very list the introspector was given", why)
 	}
 }
 
